@@ -461,7 +461,7 @@ package oauth2
 //@   requires c != nil && ar != nil && resp != nil && ar.GetSession() != nil && ar.GetClient() != nil
 //@   modifies code_exists, code_active, code_rid, code_client, code_req, stored, faults, tx_escaped, ar.GetSession().GetExpiresAt(fosite.AuthorizeCode), ar.GetRequestForm(), mapof(resp.GetParameters()), resp.GetCode(), ar.DidHandleAllResponseTypes()
 //@   ensures [C13.code-params] forall k string :: (k in resp.GetParameters()) ==> (old(k in resp.GetParameters()) || k == "code" || k == "state" || k == "scope")
-//@   ensures [C01.issue-touches-only-the-new-code] ar.GetID() == old(ar.GetID()) && (forall s string :: old(code_exists[s]) ==> code_exists[s] && code_active[s] == old(code_active[s]) && code_rid[s] == old(code_rid[s]) && code_client[s] == old(code_client[s]) && code_req[s] == old(code_req[s])) && (forall s string :: code_exists[s] && !old(code_exists[s]) ==> code_rid[s] == ar.GetID())
+//@   ensures [C01.issue-touches-only-the-new-code] ar.GetID() == old(ar.GetID()) && (forall s string :: old(code_exists[s]) ==> code_exists[s] && code_active[s] == old(code_active[s]) && code_rid[s] == old(code_rid[s]) && code_client[s] == old(code_client[s]) && code_req[s] == old(code_req[s])) && (forall s string :: code_exists[s] && !old(code_exists[s]) ==> code_rid[s] == ar.GetID()) && (forall s1 string, s2 string :: code_exists[s1] && !old(code_exists[s1]) && code_exists[s2] && !old(code_exists[s2]) ==> s1 == s2)
 //@   assert @call(CreateAuthorizeCodeSession)#1 [C02.stored-code-keeps-redirect-uri] len(c.Config.GetSanitationWhiteList(ctx)) == 0 ==> formget($arg3.GetRequestForm(), "redirect_uri") == old(formget(ar.GetRequestForm(), "redirect_uri"))
 
 //@ func (*AuthorizeExplicitGrantHandler).HandleAuthorizeEndpointRequest
@@ -514,20 +514,41 @@ package oauth2
 //@   ensures [C07.password-grant-expiry] err == nil ==> 2 * (request.GetSession().GetExpiresAt(fosite.AccessToken) - ($now + life)) <= 1000000000 && 2 * ((old($now) + life) - request.GetSession().GetExpiresAt(fosite.AccessToken)) <= 1000000000
 //@   invariant loop#1 [C12.password-grant-scope-confined] $i <= len(request.GetRequestedScopes()) && (forall j int :: 0 <= j && j < $i ==> call(c.Config.GetScopeStrategy(ctx), request.GetClient().GetScopes(), request.GetRequestedScopes()[j]))
 
+// ---------------------------------------------------------------- the issuing step of the grants without a code
+// IssueAccessToken (client credentials, password, JWT bearer): exactly one access token is stored, under the request's own id.
+//@ func (*HandleHelper).IssueAccessToken
+//@   requires h != nil && requester != nil && responder != nil && requester.GetSession() != nil
+//@   modifies anyheap, acc_exists, acc_rid, acc_client, acc_req, stored, faults, tx_escaped
+//@   ensures [C01.issue-touches-only-its-grant] requester.GetID() == old(requester.GetID()) && (forall s string :: acc_exists[s] ==> acc_rid[s] == requester.GetID() || (old(acc_exists[s]) && acc_rid[s] == old(acc_rid[s])))
+//@   ensures [C18.helper-fault-refuses] faults != old(faults) ==> err != nil
+//@   ensures [C18.helper-refusal-stores-nothing] err != nil ==> acc_exists == old(acc_exists)
+//@ func (*ClientCredentialsGrantHandler).PopulateTokenEndpointResponse
+//@   requires c != nil && c.HandleHelper != nil && request != nil && response != nil && request.GetSession() != nil && request.GetClient() != nil
+//@   modifies anyheap, acc_exists, acc_rid, acc_client, acc_req, stored, faults, tx_escaped
+//@   ensures [C01.issue-touches-only-its-grant] request.GetID() == old(request.GetID()) && (forall s string :: acc_exists[s] ==> acc_rid[s] == request.GetID() || (old(acc_exists[s]) && acc_rid[s] == old(acc_rid[s])))
+//@   ensures [C10.client-credentials-needs-grant] err == nil ==> old(request.GetClient().GetGrantTypes()).Has("client_credentials")
+//@ func (*ResourceOwnerPasswordCredentialsGrantHandler).PopulateTokenEndpointResponse
+//@   requires c != nil && c.HandleHelper != nil && requester != nil && responder != nil && requester.GetSession() != nil && requester.GetClient() != nil
+//@   modifies anyheap, acc_exists, acc_rid, acc_client, acc_req, ref_exists, ref_active, ref_rid, ref_client, ref_acc, ref_req, ref_ever, stored, faults, tx_escaped
+//@   ensures [C01.issue-touches-only-its-grant] requester.GetID() == old(requester.GetID()) && (forall s string :: acc_exists[s] ==> acc_rid[s] == requester.GetID() || (old(acc_exists[s]) && acc_rid[s] == old(acc_rid[s])))
+//@   ensures [C01.issue-touches-only-its-grant] forall s string :: ref_exists[s] && ref_active[s] ==> ref_rid[s] == requester.GetID() || (old(ref_exists[s]) && old(ref_active[s]) && ref_rid[s] == old(ref_rid[s]))
+//@   ensures [C04.never-reactivates-a-used-token] (forall s string :: old(ref_ever[s]) ==> ref_ever[s]) && (forall s string :: old(ref_ever[s]) && !old(ref_exists[s] && ref_active[s]) ==> !(ref_exists[s] && ref_active[s]))
+
 // ---------------------------------------------------------------- history lemmas (ghost drivers in verif_history.go)
 // dead(sig): the code is used and no live token of its grant exists. A fault-free replay of a used code establishes it
 // (C01.replay-revokes-access / -refresh on HandleTokenEndpointRequest); the driver proves that NO sequence of token-endpoint
 // operations, however long, brings a token of that grant back to life: that is the "from that moment" of C01.
+// the helper is wired once, at construction (checked by a scan of every store in the repository)
+//@ wiring ClientCredentialsGrantHandler : HandleHelper
+//@ wiring ResourceOwnerPasswordCredentialsGrantHandler : HandleHelper
 //@ spec func dead(sig string) bool = code_exists[sig] && !code_active[sig] && (forall s string :: acc_exists[s] ==> acc_rid[s] != code_rid[sig]) && (forall s string :: ref_exists[s] && ref_rid[s] == code_rid[sig] ==> !ref_active[s])
-// request ids identify one authorization (UUIDs): no other code carries the dead grant's request id
-//@ spec func rid_unique(sig string) bool = (forall s string :: code_exists[s] && s != sig ==> code_rid[s] != code_rid[sig]) && (forall d string :: dev_live[d] ==> dev_rid[d] != code_rid[sig])
 //@ interface verifEnv.Request
 //@   ensures result != nil && !stored[result] && !shared[result] && !shared[result.GetSession()] && result.GetClient() != nil && result.GetSession() != nil
 //@   ensures forall s string :: code_exists[s] ==> result.GetID() != code_rid[s]
 //@   ensures result.GetID() != grant_id(recv)
 //@ interface verifEnv.AuthorizeRequest
 //@   ensures result != nil && result.GetClient() != nil && result.GetSession() != nil
-//@   ensures (forall s string :: code_exists[s] ==> result.GetID() != code_rid[s]) && result.GetID() != grant_id(recv)
+//@   ensures (forall s string :: code_exists[s] ==> result.GetID() != code_rid[s]) && result.GetID() != grant_id(recv) && (forall d string :: dev_live[d] ==> result.GetID() != dev_rid[d])
 //@ interface verifEnv.AuthorizeResponse
 //@   ensures result != nil
 //@ interface verifEnv.More
@@ -545,21 +566,24 @@ package oauth2
 //@ spec func deadrid(rid string) bool = (forall s string :: acc_exists[s] ==> acc_rid[s] != rid) && (forall s string :: ref_exists[s] && ref_rid[s] == rid ==> !ref_active[s]) && (forall s string :: code_exists[s] && code_rid[s] == rid ==> !code_active[s]) && (forall d string :: dev_live[d] ==> dev_rid[d] != rid)
 // the environment observes one grant (grant_id) and, request ids being unique, never hands out a NEW request carrying that id
 //@ spec func grant_id(e any) string
+// request ids tell grants apart: no two codes, and no code and live device code, carry the same request id (ids are UUIDs)
+//@ spec func ids_distinct() bool = (forall s1 string, s2 string :: code_exists[s1] && code_exists[s2] && s1 != s2 ==> code_rid[s1] != code_rid[s2]) && (forall d string, s string :: dev_live[d] && code_exists[s] ==> dev_rid[d] != code_rid[s])
 //@ interface verifEnv.Grant
 //@   pure
 //@   ensures result == grant_id(recv)
 //@ func verifHistoryTokenEndpoint
 //@   let rid0 = grant_id(env)
-//@   requires env != nil && code != nil && refresh != nil && revoke != nil && intro != nil && store != nil && implicit != nil
+//@   requires env != nil && code != nil && refresh != nil && revoke != nil && intro != nil && store != nil && implicit != nil && cc != nil && cc.HandleHelper != nil && ropc != nil && ropc.HandleHelper != nil
 //@   modifies everything
-//@   invariant loop#1 [C01.dead-grant-stays-dead] old(dead(sig0) && rid_unique(sig0)) ==> dead(sig0) && rid_unique(sig0)
+//@   invariant loop#1 [C01.dead-grant-stays-dead] old(dead(sig0) && ids_distinct()) ==> dead(sig0) && ids_distinct()
 //@   invariant loop#1 [C02.stored-grant-immutable] old(code_exists[sig0]) ==> code_exists[sig0] && code_rid[sig0] == old(code_rid[sig0]) && code_client[sig0] == old(code_client[sig0]) && code_req[sig0] == old(code_req[sig0])
+//@   invariant loop#1 [C01.request-ids-distinguish-grants] old(ids_distinct()) ==> ids_distinct()
 //@   invariant loop#1 [C01.used-code-stays-used] old(code_exists[sig0] && !code_active[sig0]) ==> code_exists[sig0] && !code_active[sig0]
 //@   invariant loop#1 [C04.dead-family-stays-dead] old(deadrid(rid0)) ==> deadrid(rid0)
 //@   invariant loop#1 [C08.revoked-grant-stays-revoked] old(deadrid(rid0)) ==> deadrid(rid0)
 //@   invariant loop#1 [C04.used-refresh-token-stays-used] old(ref_ever[sig0] && !(ref_exists[sig0] && ref_active[sig0])) ==> ref_ever[sig0] && !(ref_exists[sig0] && ref_active[sig0])
 //@   invariant loop#1 [C16.used-device-code-stays-used] old(dev_ever[sig0] && !dev_live[sig0]) ==> dev_ever[sig0] && !dev_live[sig0]
-//@   ensures [C01.dead-grant-stays-dead] old(dead(sig0) && rid_unique(sig0)) ==> dead(sig0)
+//@   ensures [C01.dead-grant-stays-dead] old(dead(sig0) && ids_distinct()) ==> dead(sig0)
 //@   ensures [C01.used-code-stays-used] old(code_exists[sig0] && !code_active[sig0]) ==> code_exists[sig0] && !code_active[sig0]
 //@   ensures [C04.dead-family-stays-dead] old(deadrid(rid0)) ==> deadrid(rid0)
 //@   ensures [C08.revoked-grant-stays-revoked] old(deadrid(rid0)) ==> deadrid(rid0)
